@@ -117,7 +117,7 @@ pub fn scenario_strategy() -> impl Strategy<Value = Scenario> {
         0u16..600,
         any::<bool>(),
         (any::<bool>(), any::<bool>(), prop_oneof![Just(44100u32), Just(48000), Just(22050), Just(11025), 8000u32..96000], 0u8..=100),
-        prop_oneof![2 => Just(0u8), 1 => Just(1), 2 => Just(2)],
+        prop_oneof![2 => Just(0u8), 1 => Just(1), 2 => Just(2), 1 => Just(3)],
         proptest::collection::vec(
             (
                 0u8..12,
@@ -220,7 +220,9 @@ pub fn build(sc: &Scenario, asset: AssetKind, sound_on: bool) -> Result<Emu, Str
         e.load_rom(crate::host::MemRomSet { pages, chunk: n.max(1) as usize * 16 }).map_err(|x| format!("load_rom through short reads: {:?}", x))?;
     }
     let _ = OneByteOrSo { inner: MemAsset::new(vec![]) }.inner;
-    if sc.tape % 3 != 0 {
+    // tape: 0 none, 1 inserted and playing, 2 inserted with fast loading on, 3 inserted, deck
+    // stopped, fast loading off (a loader then waits on a silent input, whatever the driving)
+    if sc.tape % 4 != 0 {
         let t = tap::write(&[
             tap::block(0xFF, &[0xA5, 0x3C, 0x00, 0xFF, 0x81], true),
             tap::block(0xFF, &(0..300u16).map(|i| (i * 7 + 3) as u8).collect::<Vec<u8>>(), true),
@@ -249,10 +251,10 @@ pub fn build(sc: &Scenario, asset: AssetKind, sound_on: bool) -> Result<Emu, Str
             }
         };
         e.load_tape(Tape::Tap(ta)).map_err(|x| format!("{:?}", x))?;
-        if sc.tape % 3 == 1 {
-            e.play_tape();
-        } else {
-            e.set_fast_load(true);
+        match sc.tape % 4 {
+            1 => e.play_tape(),
+            2 => e.set_fast_load(true),
+            _ => {}
         }
     }
     Ok(e)
@@ -496,7 +498,7 @@ pub fn replay(run: &mut Run, phase: &str, case: &serde_json::Value) -> Result<()
 }
 
 pub const LEVEL: &str = "exploration";
-pub const RULE: &str = "scenario = machine x generated interrupt-driven program (ALU, memory and screen writes, beeper/border OUTs, keyboard+EAR, Kempston and mouse reads stored to RAM, AY register writes with read-back, 128K paging, LDIR, HALT, EI/DI) with a self-counting IM 1 / IM 2 handler x sound settings (AY, beeper, sample rate 8000..96000, volume) x optional playing tape x input script (key / joystick / mouse events attached to frame indices) x K = 2..12 frames, started from a SNA file. The reference run drives it one frame per call, draining audio. The run under test uses one of: the same again (repeatability, audio compared bit for bit), a partition into FrameCount(n) calls, maximum-speed mode with scripted stopwatch readings (zeros, non-monotonic, large), breakpoint stops after generated instruction counts with resumption, audio never drained, sound switched off, sound switched on and off between frames; and delivers the initial file, the tape image and (with short reads) the ROM images through the harness asset, rustzx's BufferCursor, a real temporary file (FileAsset), GzipAsset, or an asset returning 1..255 bytes per read. At every frame count where the run under test stops on a frame boundary, a hash of registers, all RAM banks, paging, frame clock, canvas and border buffers must equal the reference run's. non-trivial = >= 2 frames and a driving or asset different from the reference; distinct = hash of the case";
+pub const RULE: &str = "scenario = machine x generated interrupt-driven program (ALU, memory and screen writes, beeper/border OUTs, keyboard+EAR, Kempston and mouse reads stored to RAM, AY register writes with read-back, 128K paging, LDIR, HALT, EI/DI) with a self-counting IM 1 / IM 2 handler x sound settings (AY, beeper, sample rate 8000..96000, volume) x tape (none / playing / stopped with fast loading on / stopped with fast loading off) x input script (key / joystick / mouse events attached to frame indices) x K = 2..12 frames, started from a SNA file. The reference run drives it one frame per call, draining audio. The run under test uses one of: the same again (repeatability, audio compared bit for bit), a partition into FrameCount(n) calls, maximum-speed mode with scripted stopwatch readings (zeros, non-monotonic, large), breakpoint stops after generated instruction counts with resumption, audio never drained, sound switched off, sound switched on and off between frames; and delivers the initial file, the tape image and (with short reads) the ROM images through the harness asset, rustzx's BufferCursor, a real temporary file (FileAsset), GzipAsset, or an asset returning 1..255 bytes per read. At every frame count where the run under test stops on a frame boundary, a hash of registers, all RAM banks, paging, frame clock, canvas and border buffers must equal the reference run's. non-trivial = >= 2 frames and a driving or asset different from the reference; distinct = hash of the case";
 pub const ASSUMPTIONS: &[&str] = &[
     "inputs are applied between emulate_frames calls at the same frame indices in all drivings (the property's 'inputs applied at frame boundaries')",
     "total frame count comes from the cfg(rustzx_verif) frame counter hook",
